@@ -1,5 +1,6 @@
 use super::comments::{
-    append_trailing_statement_suffix, has_inline_non_trivia_after, has_inline_non_trivia_before,
+    append_trailing_statement_semicolon, append_trailing_statement_suffix,
+    has_inline_non_trivia_after, has_inline_non_trivia_before,
 };
 use super::*;
 
@@ -911,19 +912,22 @@ pub(crate) fn render_statement_align_split(
     syntax_plan: &SyntaxNodeLayoutPlan,
     plan: &FormatPlan,
 ) -> Option<DocPair> {
-    match syntax_plan.kind {
+    let node = find_node_by_id(root, syntax_plan.syntax_id)?;
+    let (before, mut after) = match syntax_plan.kind {
         LuaSyntaxKind::LocalStat => {
-            let node = find_node_by_id(root, syntax_plan.syntax_id)?;
-            let stat = LuaLocalStat::cast(node)?;
+            let stat = LuaLocalStat::cast(node.clone())?;
             render_local_stat_align_split(ctx, plan, syntax_plan.syntax_id, &stat)
         }
         LuaSyntaxKind::AssignStat => {
-            let node = find_node_by_id(root, syntax_plan.syntax_id)?;
-            let stat = LuaAssignStat::cast(node)?;
+            let stat = LuaAssignStat::cast(node.clone())?;
             render_assign_stat_align_split(ctx, plan, syntax_plan.syntax_id, &stat)
         }
         _ => None,
-    }
+    }?;
+    // The aligned rendering replaces the regular statement renderers, so it has to keep the
+    // statement's trailing semicolon under the same rules as they do.
+    append_trailing_statement_semicolon(ctx, plan, &mut after, &node);
+    Some((before, after))
 }
 
 pub(crate) fn render_statement_line_content(
